@@ -711,3 +711,88 @@ Theorem hot_reload_is_complete reloader ops order k r :
   legal_order s order = true ->
   In r (to_reload s) -> has_node (graph s) r -> tdep (graph s) (DepAsset k) r -> In k order.
 Proof. intros s. apply legal_pass_is_complete. apply drain_ok. apply graph_ok_from_the_start. Qed.
+
+(* ---- a cache never gains or loses its reloader ---- *)
+Lemma fold_process_rel : forall l s, has_reloader (fold_left process_msg l s) = has_reloader s.
+Proof. induction l as [|m r IH]; intros s; cbn [fold_left]; [reflexivity|]. rewrite IH. destruct m; reflexivity. Qed.
+Lemma drain_rel s : has_reloader (drain s) = has_reloader s.
+Proof. unfold drain. cbn. apply fold_process_rel. Qed.
+Lemma take_events_rel es : forall s, has_reloader (take_events s es) = has_reloader s.
+Proof.
+  unfold take_events. induction es as [|d r IH]; intros s; cbn [fold_left]; [reflexivity|].
+  rewrite IH. destruct (g_get (graph s) (dep_of_dentry d)); reflexivity.
+Qed.
+Lemma reload_one_rel fuel s k : has_reloader (fst (reload_one fuel s k)) = has_reloader s.
+Proof.
+  unfold reload_one.
+  destruct (g_get (graph s) (DepAsset k)) as [n|]; [|reflexivity].
+  destruct (g_typ n) as [t|]; [|reflexivity].
+  destruct (cache_get s k) as [old|]; [|reflexivity].
+  destruct (en_dyn old); cbn [negb]; [|reflexivity].
+  pose proof (load_wrapped_quiet _ _ (proj1 (load_f_quiet fuel)) (proj2 (load_f_quiet fuel))
+                (rec_push s (Some [])) t (snd k)) as Q.
+  destruct (load_wrapped (load_entry_f fuel) (load_owned_f fuel) (rec_push s (Some [])) t (snd k)) as [[s1 tr] r].
+  cbn [fst] in Q. pose proof (quiet_push_pop s (Some []) s1 Q) as P.
+  destruct (rec_pop s1) as [s2 deps]. cbn [fst] in P. pose proof (q_rel _ _ P) as G.
+  destruct r as [[v tok]|e| |]; cbn [fst]; exact G.
+Qed.
+Lemma reload_all_rel fuel : forall order s tr, has_reloader (fst (reload_all fuel s order tr)) = has_reloader s.
+Proof.
+  induction order as [|k r IH]; intros s tr; cbn [reload_all]; [reflexivity|].
+  pose proof (reload_one_rel fuel s k) as H. destruct (reload_one fuel s k) as [s1 tr1]. cbn [fst] in H.
+  now rewrite IH.
+Qed.
+Lemma run_pass_rel fuel s order : has_reloader (fst (fst (run_pass fuel s order))) = has_reloader s.
+Proof.
+  unfold run_pass. pose proof (reload_all_rel fuel order (set_to_reload s []) []) as R.
+  destruct (reload_all fuel (set_to_reload s []) order []) as [s1 tr]. exact R.
+Qed.
+
+Theorem step_keeps_the_reloader fuel s o : has_reloader (fst (fst (step fuel s o))) = has_reloader s.
+Proof.
+  destruct o; cbn [step].
+  - pose proof (q_rel _ _ (proj1 (load_f_quiet fuel) s t id)) as G.
+    destruct (load_entry_f fuel s t id) as [[s1 tr] r]. exact G.
+  - pose proof (q_rel _ _ (proj2 (load_f_quiet fuel) s t id)) as G.
+    destruct (load_owned_f fuel s t id) as [[s1 tr] r]. exact G.
+  - pose proof (q_rel _ _ (quiet_get_cached_rec s t id)) as G.
+    destruct (get_cached_rec s t id) as [s1 o]. exact G.
+  - pose proof (q_rel _ _ (quiet_get_cached_rec (fst (bump_tok s)) t id)) as G.
+    destruct (bump_tok s) as [s1 tok] eqn:B. cbn [fst] in G.
+    assert (G1 : has_reloader s1 = has_reloader s) by (unfold bump_tok in B; inversion B; reflexivity).
+    destruct (get_cached_rec s1 t id) as [s2 o]. cbn [fst] in G.
+    destruct o as [e|]; cbn [fst]; [congruence|].
+    pose proof (q_rel _ _ (quiet_cache_insert s2 (t, id) (mark_goi (mk_entry s2 t (VInt z "insert") tok)))) as G3.
+    destruct (cache_insert s2 (t, id) (mark_goi (mk_entry s2 t (VInt z "insert") tok))) as [[s3 e'] d].
+    cbn [fst] in *. congruence.
+  - reflexivity.
+  - destruct (cache_get s (t, id)); reflexivity.
+  - destruct (cache_get s (t, id)); reflexivity.
+  - destruct (has_reloader s) eqn:H; cbn [fst]; [exact H|exact H].
+  - reflexivity. - reflexivity. - reflexivity. - reflexivity. - reflexivity. - reflexivity. - reflexivity.
+  - destruct (has_reloader s) eqn:H; [|exact H].
+    assert (I1 : has_reloader (take_events (drain s) es) = true) by (now rewrite take_events_rel, drain_rel).
+    destruct (static_mode (take_events (drain s) es)); [|exact I1].
+    pose proof (run_pass_rel fuel (take_events (drain s) es) order) as R.
+    destruct (run_pass fuel (take_events (drain s) es) order) as [[s2 ok] tr]. cbn [fst] in *. congruence.
+  - destruct (has_reloader s) eqn:H; [|exact H].
+    destruct (static_mode s); [cbn [fst]; now rewrite drain_rel|].
+    pose proof (run_pass_rel fuel (drain s) order) as R.
+    destruct (run_pass fuel (drain s) order) as [[s2 ok] tr]. cbn [fst] in *. now rewrite R, drain_rel.
+  - destruct (has_reloader s && negb (static_mode s)) eqn:H; [|reflexivity].
+    pose proof (run_pass_rel fuel (set_static (drain s) true) order) as R.
+    destruct (run_pass fuel (set_static (drain s) true) order) as [[s2 ok] tr]. cbn [fst] in *.
+    rewrite R. cbn [has_reloader set_static]. apply drain_rel.
+  - reflexivity.
+  - destruct (cache_get s (t, id)) as [e|]; [|reflexivity]. destruct (en_dyn e); reflexivity.
+  - destruct (cache_get s (t, id)); reflexivity.
+  - destruct (assoc N.eqb w (watchers s)) as [[k last]|]; [|reflexivity]. destruct (cache_get s k); reflexivity.
+Qed.
+
+Theorem reloader_is_fixed_at_construction : forall ops s, has_reloader (fst (run s ops)) = has_reloader s.
+Proof.
+  induction ops as [|o r IH]; intros s; cbn [run]; [reflexivity|].
+  pose proof (step_keeps_the_reloader default_fuel s o) as H.
+  destruct (step default_fuel s o) as [[s1 x] tr]. cbn [fst] in H.
+  specialize (IH s1). destruct (run s1 r) as [s2 rest]. cbn [fst] in *. congruence.
+Qed.
